@@ -6,8 +6,8 @@ CONFIGS["C17"] = dict(
     level_text="for each seeded @transaction payload (1-6 tasks: insert / update / delete / select / readrows / symbols / sql (update, insert, "
                "delete, select, transaction-control text) / readrows with row-returning DML / drop, failing tasks, error conditions that are false, true, empty, malformed or fail at evaluation) the real "
                "scripting.Handler runs against a real SQLite file once fault-free and then once per (driver call, fault "
-               "kind): statement error, BUSY, disk full at every prepare/exec/query/begin/commit/rollback, and a commit that "
-               "fails with the inner transaction left open; after every run the tables must equal the complete result (2xx) "
+               "kind): statement error, BUSY, disk full at every prepare/exec/query/begin/commit/rollback, a commit that "
+               "fails with the inner transaction left open, and a client disconnect (the request context is cancelled at that call); after every run the tables must equal the complete result (2xx) "
                "- both the fault-free run's result and, where defined, an independent model that applies every operation of the payload to the seeded tables - "
                "or the initial state (otherwise), a fresh connection must be able to BEGIN IMMEDIATE, and no transaction may "
                "remain open. Fault placement is exhaustive per payload; payloads are sampled by seed.",
@@ -51,9 +51,10 @@ CONFIGS["C43"] = dict(
     det_seeds=16,
     rule="histories of 10-34 operations over users {admin,u1,u2} x DSNs {3 restricted - one of them named like the unrestricted one plus a dotted suffix -, 1 unrestricted} x tables {t1,t2}; row requests in plain / "
          "abstract / upsert form, one in five as a one-task @transaction script (select, insert, update, delete, sql UPDATE, readrows DELETE..RETURNING; "
-         "u1 holds the ego.sql user permission, u2 does not); a quarter of the row requests also carry ?user=<the other ordinary user>; "
+         "u1 holds the ego.sql user permission, u2 does not); a quarter of the row requests also carry ?user=<the other ordinary user>; half of the runs use the database-backed DSN service "
+         "(with its DSN cache) instead of the in-memory file service; one operation in forty turns the unrestricted DSN into a restricted one through its first DSN-level grant; "
          "non-trivial = >=4 operations; distinct = distinct history hash",
-    real=["router.ServeHTTP + authentication", "tables.AddStaticRoutes handlers (rows, table delete/create, permissions)", "dsns file service (in memory)", "permission store via resources on SQLite", "caches"],
+    real=["router.ServeHTTP + authentication", "tables.AddStaticRoutes handlers (rows, table delete/create, permissions)", "dsns file service (in memory) or dsns database service on SQLite (knob)", "permission store via resources on SQLite", "caches"],
     stubbed=["user store: in-memory AuthService (existing seam) with MinCost bcrypt hashes", "time: synctest fake clock", "sync: scheduling shim"],
     assumptions=["every user holds DSN-level read/write access, so that table grants are the deciding gate", "the permission store is available throughout (no faults in this engine, per the statement)"],
     required_probes=["requests_that_must_be_refused", "requests_allowed_by_a_grant", "grants", "tables_dropped", "upserts_of_existing_rows", "transaction_script_requests", "requests_naming_another_user"],
